@@ -59,8 +59,9 @@ def refine(mismatches):
     """Turn differing block hashes into the first differing single request."""
     out = []
     for mm in mismatches[:8]:
-        tz = mm.request.split(" ")[0] + " " if mm.request.startswith("@") else ""
-        t = core.strip_tz(mm.request).split(" ")
+        bare = core.strip_tz(mm.request)
+        tz = mm.request[:len(mm.request) - len(bare)]      # the leading environment tokens, kept on the refined request
+        t = bare.split(" ")
         if t[1] not in ("hjd", "hym"):
             out.append(mm)
             continue
